@@ -33,3 +33,4 @@ run N13_record_views_seq_lines_windows C13 C20
 run N14_error_display_impls C17
 git -C /repo status --short | head -3
 run N15_parallel_imports C07 C16
+run N16_seq_pos_vec_new C18 C01
